@@ -70,10 +70,11 @@ class NixSourceCode:
         self.source_path = source_path
 
     @classmethod
-    def from_cst(cls, node: Node) -> NixSourceCode:
+    def from_cst(cls, node: Node, source_bytes: bytes | None = None) -> NixSourceCode:
         """Build a source wrapper that keeps trivia for round-trip fidelity."""
         if node.text is None:
             raise ValueError("Missing source text")
+        full_source_bytes = source_bytes
         source_bytes = node.text
 
         contains_error = False
@@ -92,7 +93,8 @@ class NixSourceCode:
 
         if contains_error:
             # Preserve the raw text so round-tripping doesn't lose information.
-            raw_text = source_bytes.decode()
+            # The root node excludes surrounding whitespace; keep the whole input.
+            raw_text = (full_source_bytes or source_bytes).decode()
             return cls(
                 node=node,
                 expressions=[RawExpression(text=raw_text)],
